@@ -854,3 +854,65 @@ Section Proofs.
   Qed.
 
 End Proofs.
+
+(* ---------- session 3 (audit): literal reading of the filtering helpers, dependence on the
+   other arguments, exact domain of Union ---------- *)
+Section Deepen.
+  Context {A : Type} (eq_dec : forall x y : A, {x = y} + {x <> y}).
+  Notation unique := (unique eq_dec).
+
+  (* the results of the filtering helpers are Unique of the "literal" list
+     (every element of the first argument that passes the test) *)
+  Lemma intersection_literal p0 others :
+    intersection eq_dec (p0 :: others) = Ok (unique (filter (in_every eq_dec others) p0)).
+  Proof. rewrite intersection_spec. now rewrite unique_filter. Qed.
+
+  Lemma intersection_by_literal fn p0 others :
+    intersection_by eq_dec fn (p0 :: others) =
+    Ok (unique (filter (image_in_every eq_dec fn others) p0)).
+  Proof. rewrite intersection_by_spec. now rewrite unique_filter. Qed.
+
+  Lemma difference_by_literal fn s1 s2 :
+    difference_by eq_dec fn s1 s2 = unique (filter (fun x => negb (inb eq_dec (fn x) (map fn s2))) s1).
+  Proof. rewrite difference_by_spec. now rewrite unique_filter. Qed.
+
+  Lemma difference_literal s1 s2 :
+    difference eq_dec s1 s2 = unique (filter (fun x => negb (inb eq_dec x s2)) s1).
+  Proof. rewrite difference_spec. now rewrite unique_filter. Qed.
+
+  (* the other arguments matter only through membership *)
+  Lemma intersection_others_members p0 others others' :
+    (forall x, In x p0 ->
+       ((forall p, In p others -> In x p) <-> (forall p, In p others' -> In x p))) ->
+    intersection eq_dec (p0 :: others) = intersection eq_dec (p0 :: others').
+  Proof.
+    intros H. rewrite !intersection_spec. f_equal. apply filter_ext_in. intros x Hx.
+    apply (proj1 (unique_In eq_dec _ _)) in Hx. apply eq_iff_eq_true. rewrite !in_every_iff. exact (H x Hx).
+  Qed.
+
+  Lemma unique_nil_iff l : unique l = [] <-> l = [].
+  Proof.
+    split; [|intros ->; reflexivity]. destruct l as [|x l]; [reflexivity|].
+    intros E. assert (H : In x (unique (x :: l))) by (apply unique_In; now left).
+    rewrite E in H. destruct H.
+  Qed.
+
+  Lemma union_ok_iff (n : nest A) r :
+    union eq_dec n = Ok r <-> ~ has_bad n /\ r = unique (leaves n).
+  Proof.
+    rewrite union_spec. destruct (wf_nest n) eqn:E.
+    - split.
+      + intros H. injection H as <-. split; [|reflexivity].
+        intros Hb. apply wf_nest_false_iff in Hb. congruence.
+      + intros [_ ->]. reflexivity.
+    - split; [discriminate|]. intros [H _]. exfalso. now apply H, wf_nest_false_iff.
+  Qed.
+
+  Lemma union_empty_iff (n : nest A) :
+    union eq_dec n = Ok [] <-> ~ has_bad n /\ leaves n = [].
+  Proof.
+    rewrite union_ok_iff. split; intros [H1 H2]; (split; [exact H1|]).
+    - now apply unique_nil_iff.
+    - rewrite H2. reflexivity.
+  Qed.
+End Deepen.
